@@ -269,7 +269,7 @@ Qed.
 Theorem listed_exist S d pat loc l x : wf_fs S -> fs_list S d pat loc = FOk l -> In x l -> fs_exists S x false = FOk true.
 Proof.
   intros W H Hx. unfold fs_list in H. destruct (fs_addr S d loc) as [[s a]|e|k] eqn:A; cbn [fbind] in H; try discriminate.
-  injection H as <-. apply sort_dedup_In, in_map_iff in Hx. destruct Hx as (q & <- & Hq).
+  destruct (wf_pattern pat); [|discriminate]. injection H as <-. apply sort_dedup_In, in_map_iff in Hx. destruct Hx as (q & <- & Hq).
   apply in_flat_map in Hq. destruct Hq as (L & HL & Hq). apply l_list_In in Hq. destruct Hq as (_ & K & _).
   unfold wf_fs in W. rewrite Forall_forall in W. destruct (W L HL) as (ND & Pl & An). destruct (Pl q K) as (Hne & Hp).
   assert (A' : fs_addr S (render_path q) false = FOk (render_path q, (q, false))).
@@ -328,4 +328,52 @@ Proof.
     exists L, q, rel. auto.
   - intros (L & q & rel & HL & P & E & M & ->). exists L, q. repeat split; auto.
     apply (l_list_wf L dd tr pat q (W L HL)). split; [exact P|]. exists rel. auto.
+Qed.
+
+(* ------------------------------------------------------------------ the modelled pattern arguments *)
+Lemma wf_pattern_spec pat : wf_pattern pat = true <->
+  match pat with
+  | PAll | PStar => True
+  | PExt e | PRecExt e => glob_literal e
+  | PSub n => plainP n /\ glob_literal n
+  end.
+Proof.
+  destruct pat as [| |e|e|n]; cbn [wf_pattern]; try tauto; try apply plain_pattern_arg_spec.
+  rewrite andb_true_iff, plain_pattern_arg_spec. split.
+  - intros (P & G). split; [|exact G]. apply plain_plainP; [exact P|]. intros Hin. apply (G SLASH Hin). cbn. tauto.
+  - intros (P & G). split; [apply plain_of_plainP; exact P | exact G].
+Qed.
+
+(* ------------------------------------------------------------------ review r4, C13-2 / C13-3 *)
+(* a listed path answers the existence query OF ITS KIND: a file file_exists, a directory directory_exists, as found in the
+   layer that contributed it *)
+Theorem listed_exist_kind S d pat loc l x : wf_fs S -> fs_list S d pat loc = FOk l -> In x l ->
+  exists L q, In L (layers S) /\ x = render_path q /\
+    match l_get L q with
+    | Some (File _) => fs_file_exists S x false = FOk true
+    | Some Dir => fs_directory_exists S x false = FOk true
+    | None => False
+    end.
+Proof.
+  intros W H Hx. unfold fs_list in H. destruct (fs_addr S d loc) as [[s a]|e|k] eqn:A; cbn [fbind] in H; try discriminate.
+  destruct (wf_pattern pat); [|discriminate]. injection H as <-. apply sort_dedup_In, in_map_iff in Hx. destruct Hx as (q & <- & Hq).
+  apply in_flat_map in Hq. destruct Hq as (L & HL & Hq). apply l_list_In in Hq. destruct Hq as (_ & K & _).
+  unfold wf_fs in W. rewrite Forall_forall in W. destruct (W L HL) as (ND & Pl & An). destruct (Pl q K) as (Hne & Hp).
+  assert (A' : fs_addr S (render_path q) false = FOk (render_path q, (q, false))).
+  { apply fs_addr_unloc. split; [reflexivity | apply parse_render; assumption]. }
+  exists L, q. split; [exact HL|]. split; [reflexivity|]. rewrite l_get_assoc by exact Hne.
+  destruct (key_assoc_some q L K) as ([b|] & E); rewrite E.
+  - rewrite (fs_file_exists_spec S _ _ _ _ A'). f_equal. apply existsb_exists. exists L. split; [exact HL|].
+    unfold l_is_file. cbn [fst snd]. rewrite l_get_assoc by exact Hne. rewrite E. reflexivity.
+  - rewrite (fs_directory_exists_spec S _ _ _ _ A'). f_equal. apply existsb_exists. exists L. split; [exact HL|].
+    unfold l_is_dir. cbn [fst]. rewrite l_get_assoc by exact Hne. rewrite E. reflexivity.
+Qed.
+
+(* sub-directories in one statement: the rendered immediate children that are directories in SOME layer *)
+Theorem subdirs_union S d loc s dd tr l : wf_fs S -> fs_addr S d loc = FOk (s, (dd, tr)) -> fs_subdirectories S d loc = FOk l ->
+  forall x, In x l <-> exists L n, In L (layers S) /\ l_get L (dd ++ [n]) = Some Dir /\ x = render_path (dd ++ [n]).
+Proof.
+  intros W A H x. rewrite (subdirs_spec S d loc s (dd, tr) l A H x). unfold wf_fs in W. rewrite Forall_forall in W. split.
+  - intros (L & q & HL & Hq & ->). apply (l_subdirs_wf L dd tr q (W L HL)) in Hq. destruct Hq as (G & n & ->). eauto.
+  - intros (L & n & HL & G & ->). exists L, (dd ++ [n]). repeat split; auto. apply (l_subdirs_wf L dd tr _ (W L HL)). eauto.
 Qed.
